@@ -17,12 +17,11 @@ pub type SU<'a, T> = Stream<T, P<'a>, Unbounded, NoOrder, ExactlyOnce>;
 // =================================================================================================
 // C31: slices. Every flow emits exactly one record per slice describing what each hook revealed.
 
-/// (batch, count snapshot, set snapshot (sorted), state = elements batched in earlier slices)
-pub type C31Basic = (Vec<i64>, usize, Vec<i64>, usize);
+/// (batch, set snapshot (sorted; its length is the count), state = elements batched in earlier slices)
+pub type C31Basic = (Vec<i64>, Vec<i64>, usize);
 
-/// `use::batch` + two `use::snapshot`s (a count and a set-valued fold of the same input) + `use::state`.
+/// `use::batch` + `use::snapshot` of a set-valued fold of the same input + `use::state`.
 pub fn c31_basic<'a>(v: S<'a, i64>) -> S<'a, C31Basic> {
-    let cnt = v.clone().count();
     let set = v.clone().fold(
         q!(|| std::collections::BTreeSet::<i64>::new()),
         q!(|acc, x| {
@@ -31,8 +30,31 @@ pub fn c31_basic<'a>(v: S<'a, i64>) -> S<'a, C31Basic> {
     );
     sliced! {
         let batch = use::batch(v, nondet!(/** the simulator explores the slices */));
-        let c = use::snapshot(cnt, nondet!(/** the simulator explores the slices */));
         let s = use::snapshot(set, nondet!(/** the simulator explores the slices */));
+        let mut seen = use::state(|l| l.singleton(q!(0usize)));
+
+        let out = batch
+            .clone()
+            .collect_vec()
+            .zip(s)
+            .zip(seen.clone())
+            .map(q!(|((b, s), seen)| (b, s.into_iter().collect::<Vec<i64>>(), seen)));
+        seen = seen.zip(batch.count()).map(q!(|(s, n)| s + n));
+        out.into_stream()
+    }
+}
+
+/// (batch, count snapshot, sum snapshot, state) — two snapshots of different singletons in one slice.
+pub type C31Multi = (Vec<i64>, usize, i64, usize);
+
+/// `use::batch` + two `use::snapshot`s (count and sum of the same input) + `use::state`.
+pub fn c31_multi<'a>(v: S<'a, i64>) -> S<'a, C31Multi> {
+    let cnt = v.clone().count();
+    let sum = v.clone().fold(q!(|| 0i64), q!(|acc, x| *acc += x));
+    sliced! {
+        let batch = use::batch(v, nondet!(/** the simulator explores the slices */));
+        let c = use::snapshot(cnt, nondet!(/** the simulator explores the slices */));
+        let s = use::snapshot(sum, nondet!(/** the simulator explores the slices */));
         let mut seen = use::state(|l| l.singleton(q!(0usize)));
 
         let out = batch
@@ -41,7 +63,7 @@ pub fn c31_basic<'a>(v: S<'a, i64>) -> S<'a, C31Basic> {
             .zip(c)
             .zip(s)
             .zip(seen.clone())
-            .map(q!(|(((b, c), s), seen)| (b, c, s.into_iter().collect::<Vec<i64>>(), seen)));
+            .map(q!(|(((b, c), s), seen)| (b, c, s, seen)));
         seen = seen.zip(batch.count()).map(q!(|(s, n)| s + n));
         out.into_stream()
     }
